@@ -63,11 +63,42 @@ Proof.
 Qed.
 Print Assumptions c16_sites_covered.
 
-(* no goroutine, no select; randomness / wall clock only inside the registered simulation helpers,
-   which nothing else in the non-test code refers to (reference graph of the translator) *)
+(* no goroutine, no select; randomness / wall clock / environment only inside the registered
+   simulation helpers, which nothing else in the non-test code refers to (reference graph of the
+   translator); no process-local mutable state and no dependence on the zone of the process
+   outside the registered sites (the two theorems below say what that means per kind); a row of an
+   unknown kind fails *)
 Theorem c16_no_ambient : forall r, In r ambient_table -> ambient_row_ok r = true.
 Proof. intros r Hr. pose proof ambient_table_ok as H. rewrite forallb_forall in H. exact (H r Hr). Qed.
 Print Assumptions c16_no_ambient.
+
+(* "regardless of process": every write the translator finds through a field of a state-machine
+   struct (a struct with sdk.Context methods, app.App, and what they hold) or through a package-level
+   variable - memory that is not rolled back with the store and not shared between processes - is a
+   registered harmless site; every type of another module such a struct holds is on the closed list
+   of SDK objects; the types exempted as call-local are exactly the registered ones; no alias of a
+   map / slice / channel / sync field escapes the scan (a procstate-unrecognised row is never
+   accepted); and nothing registered is stale *)
+Theorem c16_no_process_state :
+  (forall r, In r ambient_table -> is_procstate_kind (am_kind r) = true -> procstate_row_ok r = true) /\
+  registries_live ambient_table = true.
+Proof.
+  pose proof procstate_table_ok as H. apply andb_true_iff in H. destruct H as [H1 H2]. split; [|exact H2].
+  intros r Hr Hk. rewrite forallb_forall in H1. specialize (H1 r Hr). rewrite Hk in H1. exact H1.
+Qed.
+Print Assumptions c16_no_process_state.
+
+(* "regardless of wall-clock / host": no Time in the zone of the process (time.Unix*, time.Parse,
+   Date / ParseInLocation with a location other than time.UTC, time.Local, Time.Local, time.LoadLocation)
+   reaches a zone-dependent operation or leaves its function before .UTC() / .In(time.UTC), outside
+   the registered test helper *)
+Theorem c16_no_local_time :
+  forall r, In r ambient_table -> am_kind r = "localtime"%string -> localtime_row_ok r = true.
+Proof.
+  intros r Hr Hk. pose proof localtime_table_ok as H. rewrite forallb_forall in H. specialize (H r Hr).
+  rewrite Hk in H. exact H.
+Qed.
+Print Assumptions c16_no_local_time.
 
 (* ---- non-vacuity ---- *)
 (* two enumeration orders of the same three fills (a buy and two sells at price 2.5) give the same
@@ -93,3 +124,62 @@ Proof. vm_compute. reflexivity. Qed.
 Example c16_collect_is_order_sensitive :
   fold_map (@collect_body Z unit) [(3, tt); (1, tt)] [] <> fold_map (@collect_body Z unit) [(1, tt); (3, tt)] [].
 Proof. vm_compute. intro H. discriminate. Qed.
+
+(* ---- the new row kinds: rows the checker rejects (each is what the translator emits for a real
+   change of that kind), and what registration can and cannot excuse ---- *)
+(* a sync.Map cache in a keeper: the held type and both writes *)
+Example c16_rejects_sync_map_field :
+  ambient_row_ok (mkAmbient "<types>" "x/liquidity/keeper.Keeper.genericParams" "procstate-ext" "sync.Map"
+                    ["x/liquidity/keeper.Keeper.genericParams"]) = false /\
+  ambient_row_ok (mkAmbient "x/liquidity/keeper/params.go" "liquidity.SetGenericParams" "procstate"
+                    "Store field x/liquidity/keeper.Keeper.genericParams" ["app.New"; "liquidity.MsgServer.UpdateGenericParams"]) = false.
+Proof. vm_compute. split; reflexivity. Qed.
+
+(* a plain map field written in a handler, a package-level variable assigned, an in-place Dec operation *)
+Example c16_rejects_map_write_and_pkg_var :
+  ambient_row_ok (mkAmbient "x/vault/keeper/vault.go" "vault.SetVault" "procstate" "assign field x/vault/keeper.Keeper.cache" []) = false /\
+  ambient_row_ok (mkAmbient "x/lend/types/keys.go" "lend/types.Bump" "procstate" "incdec package variable x/lend/types.Counter" []) = false /\
+  ambient_row_ok (mkAmbient "x/lend/keeper/iter.go" "lend.Accrue" "procstate" "in-place cosmossdk.io/math.LegacyDec.AddMut on package variable x/lend/types.Rate" []) = false.
+Proof. vm_compute. repeat split; reflexivity. Qed.
+
+(* an alias the scan cannot follow is never accepted, whatever is registered *)
+Example c16_rejects_unrecognised :
+  forall reg, procstate_row_ok_with reg (mkAmbient "x/vault/keeper/vault.go" "vault.F" "procstate-unrecognised"
+                                            "copied: field x/vault/keeper.Keeper.cache" []) = false.
+Proof. intro reg. reflexivity. Qed.
+
+(* a call-local type that is not registered, and a row of an unknown kind *)
+Example c16_rejects_unknown_local_type_and_kind :
+  ambient_row_ok (mkAmbient "<types>" "x/vault/keeper.Scratch" "procstate-local" "" []) = false /\
+  ambient_row_ok (mkAmbient "types/utils.go" "types.RandomInt" "some-new-kind" "" []) = false.
+Proof. vm_compute. split; reflexivity. Qed.
+
+(* local time: the calendar day of a time.Unix value, and time.Local itself *)
+Example c16_rejects_local_time :
+  ambient_row_ok (mkAmbient "x/rewards/keeper/iter.go" "rewards.DistributeExtRewardVault" "localtime"
+                    "time.Unix value: zone-dependent .AddDate before a UTC conversion" ["rewards.AppModule.BeginBlock"; "rewards.BeginBlocker"]) = false /\
+  ambient_row_ok (mkAmbient "x/locker/keeper/locker.go" "locker.F" "localtime" "time.Local" []) = false.
+Proof. vm_compute. split; reflexivity. Qed.
+
+(* registration "set once at wiring time" holds only while every transitive caller is wiring: a hooks
+   field assigned by SetHooks is accepted when only app.New reaches it, and rejected as soon as a message
+   handler does; the registered test helper types.ParseTime is rejected once state-machine code calls it *)
+Example c16_wiring_registration_is_checked :
+  let reg := [mkEntry "liquidation.SetHooks" "assign field x/liquidation/keeper.Keeper.hooks" true] in
+  procstate_row_ok_with reg (mkAmbient "x/liquidation/keeper/keeper.go" "liquidation.SetHooks" "procstate"
+                               "assign field x/liquidation/keeper.Keeper.hooks" ["app.New"]) = true /\
+  procstate_row_ok_with reg (mkAmbient "x/liquidation/keeper/keeper.go" "liquidation.SetHooks" "procstate"
+                               "assign field x/liquidation/keeper.Keeper.hooks" ["app.New"; "liquidation.MsgServer.MsgLiquidate"]) = false /\
+  ambient_row_ok (mkAmbient "types/utils.go" "types.ParseTime" "localtime" "time.Parse value returned before a UTC conversion" []) = true /\
+  ambient_row_ok (mkAmbient "types/utils.go" "types.ParseTime" "localtime" "time.Parse value returned before a UTC conversion"
+                    ["rewards.BeginBlocker"]) = false.
+Proof. vm_compute. repeat split; reflexivity. Qed.
+
+(* the table is not empty in any of the kinds the theorems talk about *)
+Example c16_table_has_rows_of_each_kind :
+  existsb (fun r => String.eqb (am_kind r) "procstate") ambient_table = true /\
+  existsb (fun r => String.eqb (am_kind r) "procstate-ext") ambient_table = true /\
+  existsb (fun r => String.eqb (am_kind r) "procstate-local") ambient_table = true /\
+  existsb (fun r => String.eqb (am_kind r) "localtime") ambient_table = true /\
+  existsb (fun r => String.eqb (am_kind r) "random") ambient_table = true.
+Proof. vm_compute. repeat split; reflexivity. Qed.
